@@ -145,6 +145,21 @@ def permutable(case, ix):
     return True
 
 
+def forever_tie(ix):
+    for sp in ix.scheds():
+        sid = sp['id']
+        if ix.enter(sid) is None or not any(m['forever'] for m in sp['members']):
+            continue
+        last = ix.last_finite_exit(sid)
+        if last is None:
+            continue
+        elig = eligibility(ix, sid)
+        for m in sp['members']:
+            if m['forever'] and elig[m['id']] is not None and elig[m['id']] == last['t']:
+                return True
+    return False
+
+
 def rekeyed(case, rekey):
     new = S.clone(case)
     n = 0
@@ -197,6 +212,14 @@ def evaluate(case):
         res.nontrivial = True
         a, b = facts(ix), facts(tix)
         diff = [(k, a[k], b[k]) for k in sorted(a) if a[k] != b[k]]
+        if (diff or ttrace.outcome != trace.outcome) and (
+                forever_tie(ix) or forever_tie(tix)):
+            # a forever job that becomes eligible at the very instant its scheduler has
+            # finished may or may not start (C09 leaves it open); if it takes time to honour
+            # its cancellation, everything behind that scheduler moves with it
+            res.label('twin:forever-job-eligible-at-the-stop-instant')
+            diff = []
+            ttrace.outcome = trace.outcome
         if diff or ttrace.outcome != trace.outcome:
             res.fail('C12:insertion-order-changes-when-jobs-run',
                      "permuting insertion order / hash keys / tie keys changes (enter, exit, "
